@@ -983,6 +983,7 @@ func c14RecConfigWith(fi map[string]func(interface{}) (interface{}, error), ai m
 			return r, err
 		})
 	}
+	AddDecoys(&c)
 	return c
 }
 
